@@ -86,7 +86,7 @@ func runOne10(i int, cfg *Config, seed int64) (obs Obs10) {
 		for _, d := range cfg.Deps[x] {
 			deps = append(deps, component.MustNewID(d))
 		}
-		extCfg[id] = &extConfig{Deps: deps}
+		extCfg[id] = &extConfig{Deps: deps, Watch: rng.Intn(2) == 0}
 		extFac[id.Type()] = w.extensionFactory(x)
 		svcExts = append(svcExts, id)
 	}
